@@ -153,6 +153,22 @@ fn mode_write(cases: &[Value], trace: &Trace) {
                 e => tool_error(&format!("unknown enc {e}")),
             };
         }
+        // files added under NON-neutral locales: the same name as file 1 under 0x0409, another name under 0x0807
+        let mut loc_json = Vec::new();
+        if c.get("twin").and_then(|x| x.as_bool()).unwrap_or(false) && !files_json.is_empty() {
+            let first = files_json[0]["name"].as_str().unwrap_or("").to_string();
+            let specs: [(String, u16, u8, bool, usize); 2] = [
+                (first, 0x0409, 0, false, 33),
+                ("Localized\\Strings.txt".to_string(), 0x0807, cf::ZLIB, true, ssize + 40),
+            ];
+            for (li, (name, locale, m, enc, len)) in specs.iter().enumerate() {
+                let mut rng = Rng::derive(seed, &format!("c02w:{id}:loc{li}"));
+                let data = gen_content("text", *len, &mut rng);
+                loc_json.push(json!({"name": name, "nb": bytes_json(name.as_bytes()), "locale": locale, "len": len,
+                    "tok": tok(&data), "data": bytes_json(&data)}));
+                b = b.add_file_data_with_options(data, name, *m, *enc, *locale);
+            }
+        }
         let path = scratch.file(&format!("w{id}.mpq"));
         let p2 = path.clone();
         let o = guarded(move || b.build(&p2));
@@ -162,7 +178,7 @@ fn mode_write(cases: &[Value], trace: &Trace) {
         // the last one differs from a (possibly present) name only in the case of a non-ASCII letter
         let absent = ["absent.txt", "Data\\File99.bin", "Interface\\Glue\\caf\u{c9}.txt"];
         trace.ev(json!({"ev":"Archive","case":id,"dir":1,"ver":ver,"shift":shift,"listfile":lf,"crc":crc,"res":res,
-            "alen": bytes.len(), "bytes": bytes_json(&bytes), "files": files_json,
+            "alen": bytes.len(), "bytes": bytes_json(&bytes), "files": files_json, "locfiles": loc_json,
             "absent": absent.iter().map(|a| json!({"name": a, "nb": bytes_json(a.as_bytes())})).collect::<Vec<_>>() }));
     }
 }
